@@ -23,15 +23,19 @@ VARIABLES login,   \* "none" | "user"
           nsess,   \* open sessions on the token
           pin,     \* the user PIN
           open,    \* per thread: has it a session
+          nkey,    \* private token keys made by successful C_UnwrapKey calls
+          nracy,   \* C_UnwrapKey calls that a C_Logout of another thread overlapped (as built: such a call may leave a key
+                   \* without value behind - whether it returned CKR_OK or, the handle being purged, an error)
+          skey,    \* the thread whose session owns the shared sensitive session key (0: there is none)
           pend     \* per thread: [st: "idle" | "inv" | "done", c, a, b, rv, out, lo]
                    \* lo: a C_Logout call of another thread overlapped the call (in real time, not only its instant)
-vars == <<login, nsess, pin, open, pend>>
+vars == <<login, nsess, pin, open, nkey, nracy, skey, pend>>
 
 Idle == [st |-> "idle", c |-> "", a |-> "", b |-> "", rv |-> "", out |-> "", lo |-> FALSE]
-Init == /\ login = "none" /\ nsess = 0 /\ pin = InitPin /\ open = [t \in Threads |-> FALSE]
+Init == /\ login = "none" /\ nsess = 0 /\ pin = InitPin /\ open = [t \in Threads |-> FALSE] /\ nkey = 0 /\ nracy = 0 /\ skey = 0
         /\ pend = [t \in Threads |-> Idle]
 
-Calls == {"open", "close", "login", "logout", "sessinfo", "setpin", "createpriv"}
+Calls == {"open", "close", "login", "logout", "sessinfo", "setpin", "createpriv", "unwrappriv", "mksens", "badset", "readsens"}
 Inv(t, c, a, b) ==
     /\ pend[t].st = "idle" /\ c \in Calls
     /\ (c = "open" => ~open[t]) /\ (c # "open" => open[t])
@@ -40,17 +44,19 @@ Inv(t, c, a, b) ==
                                   lo |-> \E w \in Threads \ {t} : pend[w].st # "idle" /\ pend[w].c = "logout"]
                    ELSE IF c = "logout" /\ pend[u].st # "idle" THEN [pend[u] EXCEPT !.lo = TRUE]
                    ELSE pend[u]]
-    /\ UNCHANGED <<login, nsess, pin, open>>
+    /\ UNCHANGED <<login, nsess, pin, open, nkey, nracy, skey>>
 
 StateName == IF login = "user" THEN "RW_USER" ELSE "RW_PUBLIC"
 Done(t, rv, out) == pend' = [pend EXCEPT ![t].st = "done", ![t].rv = rv, ![t].out = out]
 Lin(t) ==
-    /\ pend[t].st = "inv"
+    /\ pend[t].st = "inv" /\ UNCHANGED <<nkey, nracy>>
+    /\ (pend[t].c \notin {"close", "mksens"} => UNCHANGED skey)
     /\ LET c == pend[t].c  a == pend[t].a  b == pend[t].b IN
        CASE c = "open"   -> /\ nsess' = nsess + 1 /\ open' = [open EXCEPT ![t] = TRUE] /\ Done(t, "OK", "")
                             /\ UNCHANGED <<login, pin>>
          \* closing the last session of the token logs out
          [] c = "close"  -> /\ nsess' = nsess - 1 /\ open' = [open EXCEPT ![t] = FALSE] /\ Done(t, "OK", "")
+                            /\ skey' = IF skey = t THEN 0 ELSE skey        \* (session objects die with their session)
                             /\ login' = (IF nsess = 1 THEN "none" ELSE login) /\ UNCHANGED pin
          [] c = "login"  -> IF login = "user" THEN Done(t, "USER_ALREADY_LOGGED_IN", "") /\ UNCHANGED <<login, nsess, pin, open>>
                             ELSE IF a = pin THEN login' = "user" /\ Done(t, "OK", "") /\ UNCHANGED <<nsess, pin, open>>
@@ -61,27 +67,53 @@ Lin(t) ==
          [] c = "setpin" -> IF a = pin THEN pin' = b /\ Done(t, "OK", "") /\ UNCHANGED <<login, nsess, open>>
                             ELSE Done(t, "PIN_INCORRECT", "") /\ UNCHANGED <<login, nsess, pin, open>>
          \* C_CreateObject of a private session object: the user must be logged in
-         [] c = "createpriv" -> /\ Done(t, IF login = "user" THEN "OK" ELSE "USER_NOT_LOGGED_IN", "")
+         \* A public, SENSITIVE and unextractable session key that every session of the token can find:
+         \* C_CreateObject; C_SetAttributeValue with a template that is refused (CKA_SENSITIVE = false); and
+         \* C_GetAttributeValue(CKA_VALUE), which answers CKR_ATTRIBUTE_SENSITIVE and hands out no byte - at every instant,
+         \* also while the refused C_SetAttributeValue of another thread is being rolled back (C02)
+         [] c = "mksens" -> IF skey # 0 THEN Done(t, "EXISTS", "") /\ UNCHANGED <<login, nsess, pin, open, skey>>
+                            ELSE skey' = t /\ Done(t, "OK", "") /\ UNCHANGED <<login, nsess, pin, open>>
+         [] c = "badset" -> /\ Done(t, IF skey # 0 THEN "ATTRIBUTE_READ_ONLY" ELSE "NOKEY", "")
+                            /\ UNCHANGED <<login, nsess, pin, open>>
+         [] c = "readsens" -> /\ Done(t, IF skey # 0 THEN "ATTRIBUTE_SENSITIVE" ELSE "NOKEY", "")
+                              /\ UNCHANGED <<login, nsess, pin, open>>
+         \* ... and likewise C_UnwrapKey into a private token key
+         [] c \in {"createpriv", "unwrappriv"} ->
+                                /\ Done(t, IF login = "user" THEN "OK" ELSE "USER_NOT_LOGGED_IN", "")
                                 /\ UNCHANGED <<login, nsess, pin, open>>
 
 \* As built (known finding K18-logout-split): C_Logout is not one step.  It resets the login state first and purges the
 \* private session objects and the handles of private objects afterwards, with no lock spanning the two: a private
 \* session object that another thread is building meanwhile - even after logging in AGAIN - is purged, and its creation
 \* fails with an error that no sequential order explains.
-PurgedByLogout(t, c, rv) == "LogoutSplit" \in Dev /\ c = "createpriv" /\ pend[t].lo /\ rv \notin {"OK", "USER_NOT_LOGGED_IN"}
+PurgedByLogout(t, c, rv) == /\ "LogoutSplit" \in Dev /\ c \in {"createpriv", "unwrappriv"} /\ pend[t].lo
+                            /\ rv \notin {"OK", "USER_NOT_LOGGED_IN"}
+\* (as built, same finding: the key material of a key that is being made while another thread logs out cannot be
+\*  encrypted any more; the result of token->encrypt is not looked at, C_UnwrapKey returns CKR_OK and leaves a key
+\*  WITHOUT value.  What must never happen, deviation or not: the value stored in clear.)
 Ret(t, c, rv, out) ==
     /\ pend[t].st = "done" /\ pend[t].c = c
     /\ (pend[t].rv = rv /\ pend[t].out = out) \/ PurgedByLogout(t, c, rv)
-    /\ pend' = [pend EXCEPT ![t] = Idle] /\ UNCHANGED <<login, nsess, pin, open>>
+       \/ ("LogoutSplit" \in Dev /\ c = "unwrappriv" /\ pend[t].lo /\ rv = "OK")
+    /\ nkey' = IF c = "unwrappriv" /\ rv = "OK" THEN nkey + 1 ELSE nkey
+    /\ nracy' = IF c = "unwrappriv" /\ pend[t].lo THEN nracy + 1 ELSE nracy
+    /\ pend' = [pend EXCEPT ![t] = Idle] /\ UNCHANGED <<login, nsess, pin, open, skey>>
 
 \* what a single thread finds afterwards: the login state, and which PIN logs in
-Final(st, goodpin) == /\ \A t \in Threads : pend[t].st = "idle"
-                      /\ st = StateName /\ goodpin = pin
+\* ... and of the keys: as many as calls succeeded; each has the value that was wrapped (as built: except the ones made
+\* while another thread logged out); the value is nowhere in the token directory in clear (C06) - no exception
+Final(st, goodpin, nkeys, bad, plain) ==
+    /\ \A t \in Threads : pend[t].st = "idle"
+    /\ st = StateName /\ goodpin = pin
+    /\ plain = 0
+    /\ nkeys = nkey \/ ("LogoutSplit" \in Dev /\ nkeys <= nkey + nracy /\ nkey <= nkeys + nracy)
+    /\ bad = 0 \/ ("LogoutSplit" \in Dev /\ bad <= nracy)
 
 Next == \/ \E t \in Threads, c \in Calls, a \in PinSyms \cup {""}, b \in PinSyms \cup {""} : Inv(t, c, a, b)
         \/ \E t \in Threads : Lin(t)
-        \/ \E t \in Threads, c \in Calls, rv \in {"OK", "PIN_INCORRECT", "USER_ALREADY_LOGGED_IN", "USER_NOT_LOGGED_IN"},
-              out \in {"", "RW_USER", "RW_PUBLIC"} : Ret(t, c, rv, out)
+        \/ \E t \in Threads, c \in Calls, rv \in {"OK", "PIN_INCORRECT", "USER_ALREADY_LOGGED_IN", "USER_NOT_LOGGED_IN", "ATTRIBUTE_SENSITIVE",
+                     "ATTRIBUTE_READ_ONLY", "NOKEY", "EXISTS"},
+              out \in {"", "RW_USER", "RW_PUBLIC", "LEAK"} : Ret(t, c, rv, out)
 Spec == Init /\ [][Next]_vars
 
 TypeOK == /\ login \in {"none", "user"} /\ nsess \in 0 .. Cardinality(Threads) + 1 /\ pin \in PinSyms
